@@ -250,8 +250,8 @@ class AgenSource:
                 rec.ev(ev="pull", src=self.idx, res="item")
                 yield self.items[self.pos - 1]
         finally:
-            self.closes += 1
             if self.state not in ("exhausted", "failed"):
+                self.closes += 1  # ended from outside: aclose() (or a thrown exception)
                 self.state = "closed"
 
     @property
